@@ -128,6 +128,142 @@ def dispatch_rows(src, fn, kernels):
     return rows
 
 
+def split_arms(body):
+    """split the body of a `match` into (pattern, result) pairs at top level"""
+    arms = []
+    i, n = 0, len(body)
+    while i < n:
+        # pattern up to `=>` at depth 0
+        depth = 0
+        j = i
+        while j < n:
+            c = body[j]
+            if c in "([{":
+                depth += 1
+            elif c in ")]}":
+                depth -= 1
+            elif c == "=" and depth == 0 and body[j:j + 2] == "=>":
+                break
+            j += 1
+        if j >= n:
+            break
+        pat = " ".join(body[i:j].split())
+        k = j + 2
+        while k < n and body[k].isspace():
+            k += 1
+        if k < n and body[k] == "{":
+            blk, end = block_after(body, k)
+            res = " ".join(blk.split())
+            k = end
+            while k < n and (body[k].isspace() or body[k] == ","):
+                k += 1
+        else:
+            depth = 0
+            e = k
+            while e < n:
+                c = body[e]
+                if c in "([{":
+                    depth += 1
+                elif c in ")]}":
+                    depth -= 1
+                elif c == "," and depth == 0:
+                    break
+                e += 1
+            res = " ".join(body[k:e].split())
+            k = e + 1
+        if pat:
+            arms.append((pat, res))
+        i = k
+    return arms
+
+
+def classify_result(res, enum):
+    res = res.strip().rstrip(";").strip()
+    res = re.sub(r"^return\s+", "", res)
+    m = re.fullmatch(r"Done\(m\.clone_edge\((f|g)\)\)", res)
+    if m:
+        return ("clone", m.group(1), "", "")
+    m = re.fullmatch(r"Done\(m\.get_terminal\((\w+)\)\.unwrap\(\)\)", res)
+    if m:
+        return ("const", m.group(1), "", "")
+    m = re.fullmatch(r"Not\((f|g)\.borrowed\(\)\)", res)
+    if m:
+        return ("not", m.group(1), "", "")
+    m = re.fullmatch(r"Binary\(" + enum + r"::(\w+), (f|g)\.borrowed\(\), (f|g)\.borrowed\(\)\)", res)
+    if m:
+        return ("bin", m.group(1), m.group(2), m.group(3))
+    return None
+
+
+def classify_pattern(pat):
+    table = [
+        (r"\(Terminal\(t\), _\) \| \(_, Terminal\(t\)\) if \*t\.borrow\(\) == (\w+)", "either"),
+        (r"\(Terminal\(t\), _\) if \*t\.borrow\(\) == (\w+)", "f"),
+        (r"\(_, Terminal\(t\)\) if \*t\.borrow\(\) == (\w+)", "g"),
+        (r"\(Terminal\(_\), _\)", "fterm"),
+        (r"\(_, Terminal\(_\)\)", "gterm"),
+        (r"\(Inner\(_\), Inner\(_\)\) if f > g", "inner_gt"),
+        (r"\(Inner\(_\), Inner\(_\)\)", "inner"),
+        (r"_ if f > g", "any_gt"),
+        (r"_", "any"),
+    ]
+    for rx, name in table:
+        m = re.fullmatch(rx, pat)
+        if m:
+            return (name, m.group(1) if m.groups() else "")
+    return None
+
+
+def terminal_rules(src, enum, fn="terminal_bin"):
+    """the decision list of every operator block of `terminal_bin`:
+    [(operator, [(pattern, constant, result kind, x, a, b)])]; operators whose block uses a
+    construct outside the recognised shapes are returned in the second list (not an error: the
+    correspondence streams still cover them)"""
+    src = strip_comments(src)
+    m = re.search(r"fn " + fn + r"\b", src)
+    if not m:
+        die(f"{fn} not found for {enum}")
+    body, _ = block_after(src, m.end())
+    out, unparsed = [], []
+    pos = 0
+    while True:
+        mm = re.search(r"OP == " + enum + r"::([A-Za-z0-9_]+) as u8\s*", body[pos:])
+        if not mm:
+            break
+        op = mm.group(1)
+        blk, end = block_after(body, pos + mm.end())
+        pos = end
+        rules = []
+        ok = True
+        rest = blk
+        me = re.match(r"\s*if f == g \{(.*?)\}", rest, flags=re.S)
+        if me:
+            r = classify_result(" ".join(me.group(1).split()), enum)
+            if r is None:
+                ok = False
+            else:
+                rules.append(("eq", "") + r)
+            rest = rest[me.end():]
+        mt = re.match(r"\s*match \(m\.get_node\(f\), m\.get_node\(g\)\)\s*", rest)
+        if not mt:
+            ok = False
+        else:
+            arms_body, e2 = block_after(rest, mt.end() - 1)
+            if rest[e2:].strip():
+                ok = False
+            for pat, res in split_arms(arms_body):
+                pc, rc = classify_pattern(pat), classify_result(res, enum)
+                if pc is None or rc is None:
+                    ok = False
+                    break
+                rules.append(pc + rc)
+        if ok and rules:
+            out.append((op, rules))
+        else:
+            unparsed.append(op)
+    return out, unparsed
+
+
 def const_usize(src, name):
     m = re.search(r"const " + name + r"\s*:\s*\w+\s*=\s*(\d+)\s*;", src)
     if not m:
@@ -198,6 +334,7 @@ def main():
         "mtbdd": memo_tags(mtbdd, "MTBDDOp"),
         "tdd": memo_tags(tdd, "TDDOp"),
     }
+    trules = {"bdd": terminal_rules(bdd, "BDDOp"), "tdd": terminal_rules(tdd, "TDDOp")}
     kern = {"OA": "and", "OX": "xor", "ONA": "nand"}
     disp = dispatch_rows(bcdd_apply, "apply_quant_dispatch", kern)
     dispu = dispatch_rows(bcdd_apply, "apply_quant_unique_dispatch", kern)
@@ -246,6 +383,19 @@ def main():
     L.append("")
     L.append(f"def tblRatioN : Nat := {ratio_n}\ndef tblRatioD : Nat := {ratio_d}\ndef tblMinCap : Nat := {min_cap}")
     L.append(f"def gcLwmPercent : Nat := {lwm}\ndef gcHwmPercent : Nat := {hwm}")
+    L.append("")
+    L.append("/-- one arm of a `terminal_bin` decision list: pattern (`eq` = the `if f == g` test before the match), the terminal constant of its guard, result kind (`clone`/`const`/`not`/`bin`), and the result's arguments -/")
+    L.append("structure TRule where\n  pat : String\n  c : String\n  res : String\n  x : String\n  a : String\n  b : String\nderiving DecidableEq, Repr\n")
+    for k, (rules, unparsed) in trules.items():
+        items = []
+        for op, rs in rules:
+            rl = lean_list([f'⟨"{p}", "{c}", "{r}", "{x}", "{a}", "{b}"⟩' for p, c, r, x, a, b in rs])
+            items.append(f'("{op}", {rl})')
+        L.append(f"/-- `terminal_bin` ({k}): operator ↦ decision list, in source order -/")
+        L.append(f"def termRules_{k} : List (String × List TRule) := {lean_list(items)}")
+        L.append(f"/-- operator blocks of `terminal_bin` ({k}) that use a construct the extractor does not recognise -/")
+        L.append(f"def termRulesUnparsed_{k} : List String := {lean_list([chr(34) + u + chr(34) for u in unparsed])}")
+
     def trip(xs):
         return lean_list([f'("{a}", "{b}", "{c}")' for a, b, c in xs])
 
